@@ -15,7 +15,8 @@
 EXTENDS Cli
 
 CONSTANTS MaxDocs, MaxEv,       \* family B
-          MaxDocsA, MaxEvA      \* family A
+          MaxDocsA, MaxEvA,     \* family A
+          Rich                  \* TRUE: the full event alphabet in family B; FALSE: a reduced one (for deeper bounds)
 
 \* values: falsy, truthy, a string that --raw-output0 rejects, a plain string, a nested container
 VNull == Null
@@ -24,9 +25,10 @@ VNul == Str(<<97, 0>>)
 VStr == Str(<<97, 34>>)                                  \* a"   (escaped unless raw)
 VArr == Arr(<<Num(1), Obj(<< <<<<107>>, Arr(<<False>>)>> >>), Arr(<<>>)>>)     \* [1,{"k":[false]},[]]
 
-ValsB == {VNull, VOne, VNul}
+ValsB == IF Rich THEN {VNull, VOne, VNul} ELSE {VNull, VOne}
 ValsA == {VNull, VNul, VStr, VArr}
-StoppersB == {ErrEv(Str(<<120>>)), HaltEv(Null, 0), HaltEv(Str(<<109>>), 5), HaltEv(VOne, 300), HaltEv(Null, -1)}
+StoppersB == IF Rich THEN {ErrEv(Str(<<120>>)), HaltEv(Null, 0), HaltEv(Str(<<109>>), 5), HaltEv(VOne, 300), HaltEv(Null, -1)}
+             ELSE {ErrEv(Str(<<120>>)), HaltEv(Null, 0)}
 StoppersA == {ErrEv(Obj(<< <<<<97>>, Num(1)>> >>)), HaltEv(VArr, 1)}
 
 RECURSIVE SeqsUpTo(_, _)
@@ -51,14 +53,16 @@ ScenariosFor(args, V, T, nd, ne) ==
   LET o == ParseArgs(args).o IN
   IF o.n \/ o.s
   THEN {[args |-> args, query |-> "ok", docs |-> [i \in 1..k |-> <<>>], bad |-> b, one |-> r] :
-          k \in 0..nd, b \in BOOLEAN, r \in Runs(V, T, ne + 1)}
+          k \in {0, nd}, b \in BOOLEAN, r \in Runs(V, T, ne)}
   ELSE {[args |-> args, query |-> "ok", docs |-> st.docs, bad |-> st.bad, one |-> <<>>] : st \in Streams(V, T, nd, ne)}
 
-FamilyA == UNION {ScenariosFor(ArgsOf(fl, ind), ValsA, StoppersA, MaxDocsA, MaxEvA) : fl \in FlagSeqs, ind \in IndentChoices}
+InitA == \E fl \in FlagSeqs, ind \in IndentChoices :
+           \E s \in ScenariosFor(ArgsOf(fl, ind), ValsA, StoppersA, MaxDocsA, MaxEvA) : InitWith(s)
 
 ControlFlags == {SelectSeq(<<"raw-output0", "exit-status", "null-input", "slurp">>, LAMBDA x : x \in S) :
                    S \in SUBSET {"raw-output0", "exit-status", "null-input", "slurp"}}
-FamilyB == UNION {ScenariosFor(ArgsOf(fl, <<>>), ValsB, StoppersB, MaxDocs, MaxEv) : fl \in ControlFlags}
+InitB == \E fl \in ControlFlags :
+           \E s \in ScenariosFor(ArgsOf(fl, <<>>), ValsB, StoppersB, MaxDocs, MaxEv) : InitWith(s)
 
 \* the front end: flag errors, rejected option values, query errors; with and without -e, with inputs present
 OneDoc == <<<<ValEv(VOne)>>>>
@@ -80,7 +84,11 @@ FrontArgs == {
 FamilyF == {[args |-> a, query |-> q, docs |-> OneDoc, bad |-> b, one |-> <<>>] :
               a \in FrontArgs, q \in {"ok", "parse", "compile"}, b \in BOOLEAN}
 
-MCScenarios == FamilyA \cup FamilyB \cup FamilyF
+InitF == \E s \in FamilyF : InitWith(s)
+
+\* (no big UNION: TLC's union of enumerated sets is quadratic)
+MCInit == InitA \/ InitB \/ InitF
+MCSpec == MCInit /\ [][Next]_vars
 
 \* the encoder in compact mode is the library's compact text (Text.tla JsonText)
 ASSUME \A v \in ValsA \cup ValsB \cup {VOne, VArr} : Enc(v, -1, FALSE, 0) = JsonText(v).s
